@@ -64,7 +64,7 @@ def expected_signed(overlay) -> tuple[set, set]:
 
 
 def mutations(d: bytes, corpus: list[bytes], ids: list[int], thorough: bool, other_prefix: bytes,
-              known_keys: tuple = ()):
+              known_keys: tuple = (), sender_priv: bytes | None = None):
     """
     Yield (operator, position, mutated bytes).
     """
@@ -104,6 +104,14 @@ def mutations(d: bytes, corpus: list[bytes], ids: list[int], thorough: bool, oth
             forged = d[:23] + struct.pack(">H", len(pub)) + pub + d[25 + klen:]
             yield (f"key_subst:{label}", 0, forged)
             yield (f"foreign_signature:{label}", 0, sign_with(keypool.private_bin(ATTACKER, "curve25519"), forged[:-siglen]))
+        # (e) the real sender of this datagram - a peer the receiver has verified, at its own address - claims another
+        # key and signs everything with its OWN key (delivered from the original source address)
+        if sender_priv is not None:
+            claimed = [(lab, pub) for lab, pub in known_keys if pub != key_bin] + \
+                [("unseen", keypool.key(OTHER, "curve25519").pub().key_to_bin())]
+            for label, pub in claimed:
+                forged = d[:23] + struct.pack(">H", len(pub)) + pub + d[25 + klen:-siglen]
+                yield (f"sender_signs_for:{label}", 0, sign_with(sender_priv, forged))
         for delta in (-1, 1, 255):
             yield ("keylen_field", delta, d[:23] + struct.pack(">H", (klen + delta) & 0xFFFF) + d[25:])
         # splice: header + signature of d, payload region of another datagram
@@ -256,7 +264,11 @@ def run_scenario_case(ctx: Ctx | None, scenario: str, shard: int, nshards: int, 
                 known = [("receiver", b.ov.my_peer.public_key.key_to_bin())] + \
                     [(f"verified_peer{i}", p.public_key.key_to_bin())
                      for i, p in enumerate(sorted(b.ov.get_peers(), key=lambda p: p.public_key.key_to_bin())[:2])]
-                for op, pos, x in mutations(d, datas, ids, thorough, b.sibling.get_prefix(), tuple(known)):
+                sender = next((nd for nd in b.env.nodes if tuple(nd.address) == tuple(src)), None)
+                sender_priv = sender.key.key_to_bin() if sender is not None and hasattr(sender, "key") else None
+                if sender_priv is not None and not sender_priv.startswith(b"LibNaCLSK:"):
+                    sender_priv = None
+                for op, pos, x in mutations(d, datas, ids, thorough, b.sibling.get_prefix(), tuple(known), sender_priv):
                     k += 1
                     if only is not None:
                         if (op, pos) != (only["op"], only["pos"]):
